@@ -1,9 +1,11 @@
 /-
 C16 — whitespace, line endings and comments never influence the result.
-(first layer: the specification scanner skips a whitespace character without
-producing a token)
+The tokenizer equals the scanner specification on every text (`C16_tokenize_eq_spec`), and the scanner
+skips a `White_Space` character and a whole `//` comment (terminated by `\n`, or by the end of the input)
+without producing a token, resuming right after them.
 -/
 import KikiVerif.Spec.Lex
+import KikiVerif.Proofs.Tokenize
 
 namespace KikiVerif.C16
 open KikiVerif KikiVerif.Spec KikiVerif.Text
@@ -14,6 +16,71 @@ theorem C16_skip_whitespace (c : Char) (rest : Str) (i : Nat) (h : isWhitespace 
   rw [scanFrom_skip (next_whitespace c rest i h)]
   simp [blen]
 
+theorem C16_tokenize_eq_spec (src : Str) : Tokenize.tokenize src = scan src := Tokenize.tokenize_eq_scan src
+
+theorem commentLen_line (body rest : Str) (h : ∀ c ∈ body, c ≠ '\n') :
+    commentLen (body ++ '\n' :: rest) = body.length + 1 := by
+  induction body with
+  | nil => simp [commentLen]
+  | cons c cs ih =>
+    have hc : c ≠ '\n' := h c (List.mem_cons_self ..)
+    simp only [List.cons_append, commentLen, hc, if_false, List.length_cons]
+    rw [ih (fun d hd => h d (List.mem_cons_of_mem _ hd))]
+    omega
+
+theorem commentLen_eof (body : Str) (h : ∀ c ∈ body, c ≠ '\n') : commentLen body = body.length := by
+  induction body with
+  | nil => rfl
+  | cons c cs ih =>
+    have hc : c ≠ '\n' := h c (List.mem_cons_self ..)
+    simp only [commentLen, hc, if_false, List.length_cons]
+    rw [ih (fun d hd => h d (List.mem_cons_of_mem _ hd))]
+    omega
+
+theorem next_comment (r : Str) (i : Nat) : next ('/' :: '/' :: r) i = .skip (1 + commentLen r) := by
+  simp [next, show isWhitespace '/' = false from by decide]
+
+/-- a `//` comment with arbitrary content up to the next `\n` produces nothing; scanning resumes after the
+line break -/
+theorem C16_skip_comment (body rest : Str) (i : Nat) (h : ∀ c ∈ body, c ≠ '\n') :
+    scanFrom ('/' :: '/' :: (body ++ '\n' :: rest)) i = scanFrom rest (i + (2 + blen body + 1)) := by
+  rw [scanFrom_skip (next_comment _ i), commentLen_line body rest h]
+  have e1 : ('/' :: '/' :: (body ++ '\n' :: rest)).drop (1 + (body.length + 1) + 1) = rest := by
+    have : 1 + (body.length + 1) + 1 = (body.length + 1) + 2 := by omega
+    rw [this]
+    simp only [List.drop_succ_cons]
+    have : body ++ '\n' :: rest = (body ++ ['\n']) ++ rest := by simp
+    rw [this]
+    have : body.length + 1 = (body ++ ['\n']).length := by simp
+    rw [this, List.drop_left]
+  have e2 : ('/' :: '/' :: (body ++ '\n' :: rest)).take (1 + (body.length + 1) + 1) = '/' :: '/' :: (body ++ ['\n']) := by
+    have : 1 + (body.length + 1) + 1 = (body.length + 1) + 2 := by omega
+    rw [this]
+    simp only [List.take_succ_cons]
+    have : body ++ '\n' :: rest = (body ++ ['\n']) ++ rest := by simp
+    rw [this]
+    have : body.length + 1 = (body ++ ['\n']).length := by simp
+    rw [this, List.take_left]
+  rw [e1, e2]
+  congr 1
+  simp [blen, clen]
+  have : ('/' : Char).utf8Size = 1 := by decide
+  have : ('\n' : Char).utf8Size = 1 := by decide
+  omega
+
+/-- a final comment without a line break produces nothing either -/
+theorem C16_trailing_comment (body : Str) (i : Nat) (h : ∀ c ∈ body, c ≠ '\n') :
+    scanFrom ('/' :: '/' :: body) i = .ok [] := by
+  rw [scanFrom_skip (next_comment _ i), commentLen_eof body h]
+  have e1 : ('/' :: '/' :: body).drop (1 + body.length + 1) = [] := by
+    have : 1 + body.length + 1 = body.length + 2 := by omega
+    rw [this]; simp
+  rw [e1]
+  exact scanFrom_done rfl
+
 end KikiVerif.C16
 
 #print axioms KikiVerif.C16.C16_skip_whitespace
+#print axioms KikiVerif.C16.C16_tokenize_eq_spec
+#print axioms KikiVerif.C16.C16_skip_comment
+#print axioms KikiVerif.C16.C16_trailing_comment
